@@ -129,9 +129,37 @@ def main(rep):
     for bad in (["-w"], ["-x", "/a"], ["-c", "a", "-c", "b"], ["-w", "/a", "w"], ["-d", "x", "-d", "y", "-w", "/a"]):
         mcases.append(("m%d" % m, mc.main_case(args=bad, real={r: r for r in roots}, mounted=[], slots=[]), ("malformed", bad)))
         m += 1
+    # "relative names in configuration ... are taken relative to the deepest directory containing all write-watched
+    # roots": the offset computed for pairs of roots, and relative rule names of one, two and more characters (a root
+    # itself, a file in a root) looked up at that offset by the real sieve()
+    import check_C06 as c6
+    scases = []
+    for ra, rb in (("/srv/a", "/srv/bb"), ("/srv/a", "/srv/a"), ("/a", "/b"), ("/srv/x/y", "/srv/x/z"), ("/", "/srv")):
+        off = deepest_common(ra, rb)
+        for root in (ra, rb):
+            for fname in ("note.txt", "n", "d/e"):
+                path = (root.rstrip("/") + "/" + fname)
+                if len(path) <= off:
+                    continue
+                rel = path[off:]
+                comps = rel.split("/")
+                for j in range(1, len(comps) + 1):
+                    name = "/".join(comps[:j])
+                    for kind in c6.KINDS[:4]:
+                        scases.append(("s%d" % len(scases), path, off, {kind: [name]}))
     validated = 0
     if exe_impl:
+        simpl, smodel, sproblems = vlib.correspond(exe_impl, exe_model, "sieve", [(c, c6.sv_line(p, o, st)) for c, p, o, st in scases])
+        for cid, path, off, sets in scases:
+            bad = c6.sieve_monitor(path, off, sets, simpl.get(cid))
+            if bad:
+                rep.violation("relative", {"case": cid, "script": [c6.sv_line(path, off, sets)], "driver": "sieve", "implementation": simpl.get(cid),
+                                           "what": "path %s, names relative to offset %d, rule %s: %s" % (path, off, sets, bad)})
+                found = True
+                break
+            validated += 1
         impl, model, problems = vlib.correspond(exe_impl, exe_model, "pure", [(c, s) for c, s, _ in pcases])
+        problems += sproblems
         for cid, script, meta in pcases:
             il = impl.get(cid)
             exp = render(ref_parse(meta[1])) if meta[0] == "params" else "cpp %d" % deepest_common(meta[1], meta[2])
@@ -190,7 +218,7 @@ def main(rep):
             if not found:
                 rep.violation("driver", {"what": p}, found_input=False)
                 found = True
-    rep.cov["evaluations"] = len(pcases) + len(mcases)
+    rep.cov["evaluations"] = len(pcases) + len(mcases) + len(scases)
     rep.cov["distinct_nontrivial"] = len(pcases) + len(mcases)
     rep.cov["traces_validated_against_impl"] = validated
     rep.cov["input_distribution"] = {"argv": sum(1 for c in pcases if c[2][0] == "params"), "path pairs": sum(1 for c in pcases if c[2][0] == "cpp"),
